@@ -248,7 +248,7 @@ func Kevent(kqfd int, changes, events []Kevent_t, timeout *Timespec) (int, error
 	if len(events) == 0 {
 		return 0, nil
 	}
-	for len(kq.activeQ) == 0 {
+	for len(kq.activeQ) == 0 || held {
 		if kq.closed {
 			return -1, EBADF
 		}
@@ -277,6 +277,23 @@ func Kevent(kqfd int, changes, events []Kevent_t, timeout *Timespec) (int, error
 	}
 	Retrievals = append(Retrievals, n)
 	return n, nil
+}
+
+// SimHold / SimRelease bracket the notes of ONE file system operation: the kernel raises them inside the
+// system call, so a reader cannot run between them.
+var held bool
+
+func SimHold() {
+	mu.Lock()
+	held = true
+	mu.Unlock()
+}
+
+func SimRelease() {
+	mu.Lock()
+	held = false
+	cond.Broadcast()
+	mu.Unlock()
 }
 
 // Retrievals records how many kevents each blocking Kevent call returned (batching evidence).
@@ -380,6 +397,9 @@ func SimOpenFds() []SimFd {
 func SimPending() int {
 	mu.Lock()
 	defer mu.Unlock()
+	if held {
+		return 0
+	}
 	n := 0
 	for _, kq := range kqs {
 		n += len(kq.activeQ)
